@@ -107,10 +107,12 @@ CLAIMS = {
                      "contributes 0 and costs 0 (C10_individual_worker/fac). Clause 3 (C10_removal): for a model without individual absences and without "
                      "automatic tasks in components, flag off, every absence list (empty, runs, duplicates, beyond the end): if the run with absences "
                      "ends in SUCCESS, remove_absence_time_list of its result has exactly the logs, time and status of the absence-free run (simulation "
-                     "relation between the two runs, PERT shift invariance, log-row lemmas). Extra hypotheses of C10_removal: rule is not FIFO (kept "
-                     "finding F16: FIFO counts READY log entries, which absence steps inflate) and TSLACK only on finish-to-start networks (shift "
-                     "invariance of the backward pass is proved there only; searched elsewhere). The proof needed a repair of /repo (c33e3f4: "
-                     "check_state(WORKING) ran at absence steps; witnesses in corpus/c10_removal.json).",
+                     "relation between the two runs, PERT shift lemmas, log-row lemmas). C10_removal_tslack_general: this holds for every rule except FIFO "
+                     "(kept finding F16: FIFO counts READY log entries, which absence steps inflate), with TSLACK on every consistent acyclic network of any "
+                     "link kinds: lst/lft shift with cpl by one constant for all tasks, so slacks change by a constant and the order is the same "
+                     "(C10_slack_shift_general; exact slack equality is false: C10_slack_shift_general_false). Two repairs of /repo were needed and found "
+                     "by this proof work: c33e3f4 (check_state(WORKING) ran at absence steps) and dd6cdec (backward PERT pass read a negative lft as 'unset'; "
+                     "first a machine-checked counterexample, then replayed on the code); witnesses in corpus/c10_removal.json.",
                 design="6 C10", technique="Lean 4 proof (working-gating of the step; simulation relation between the run with and without absence) + correspondence on absence, cost, perform, record phases + removal histories"),
     "C13": dict(text="Proved for the model on flat products (PlaceWF: no parent/child links, sizes and capacities >= 0, task/component links and "
                      "facility/workplace links consistent): PlaceInv (component listed exactly where it reports being placed, at most one workplace, "
